@@ -6,6 +6,7 @@ package main
 import (
 	"go/token"
 	"go/types"
+	"strings"
 
 	"golang.org/x/tools/go/ssa"
 )
@@ -329,5 +330,103 @@ func ruleC16Foreign(p *Prog, a *Anchors, r *Report) {
 		} else {
 			r.OK(key, p.InstrPos(s.c), "the *Error returned by %s is not handed on as it is", what)
 		}
+	}
+}
+
+// R-C16-CROSS. A position (Line, Column, Token) and a file name belong together. An error that comes out of loading,
+// compiling or executing ANOTHER template names that other template; completing it with a token of the template that
+// referred to it (the include tag's own token) yields "in other.tpl | Line 3 Col 14" for a position of the referring
+// template — a line the named file may not even have. Such errors are handed on as they are (or wrapped), never given
+// a token of this template.
+func ruleC16Cross(p *Prog, a *Anchors, r *Report) {
+	r.Begin("R-C16-CROSS", "an *Error that is the result of loading, compiling or executing another template is not completed with a token of the referring template: file name and position of a reported error stem from one source", 1)
+	upd := errorCompleter(p, a)
+	if upd == nil {
+		r.Unk("completer", "-", "no method of Error completes an error from a token (anchor unresolved)")
+		return
+	}
+	otherTemplate := func(c *ssa.Call) string {
+		callee := c.Common().StaticCallee()
+		if callee == nil || !p.InPkg(callee) {
+			return ""
+		}
+		if a.FileLoaders[callee] {
+			return p.FuncName(callee)
+		}
+		if recv := callee.Signature.Recv(); recv != nil && structOf(recv.Type()) == a.Template {
+			ln := strings.ToLower(callee.Name())
+			if strings.Contains(ln, "execute") {
+				return p.FuncName(callee)
+			}
+		}
+		return ""
+	}
+	var origin func(v ssa.Value, depth int) string
+	origin = func(v ssa.Value, depth int) string {
+		if depth > 6 {
+			return ""
+		}
+		switch x := v.(type) {
+		case *ssa.Call:
+			return otherTemplate(x)
+		case *ssa.Parameter:
+			// a helper that is handed the error (executionError(ctx, err)): where it comes from at the call sites
+			for _, s := range paramActualSites(p, x) {
+				if o := origin(s.val, depth+1); o != "" {
+					return o
+				}
+			}
+		case *ssa.Extract:
+			return origin(x.Tuple, depth+1)
+		case *ssa.TypeAssert:
+			return origin(x.X, depth+1)
+		case *ssa.ChangeInterface:
+			return origin(x.X, depth+1)
+		case *ssa.MakeInterface:
+			return origin(x.X, depth+1)
+		case *ssa.Phi:
+			for _, e := range x.Edges {
+				if o := origin(e, depth+1); o != "" {
+					return o
+				}
+			}
+		case *ssa.UnOp:
+			if al, ok := x.X.(*ssa.Alloc); ok {
+				for _, ref := range *al.Referrers() {
+					if st, ok := ref.(*ssa.Store); ok && st.Addr == ssa.Value(al) {
+						if o := origin(st.Val, depth+1); o != "" {
+							return o
+						}
+					}
+				}
+			}
+		}
+		return ""
+	}
+	n := 0
+	count := map[string]int{}
+	for _, f := range p.inPkgFuncsSorted(p.allFuncSet()) {
+		for _, b := range f.Blocks {
+			for _, in := range b.Instrs {
+				c, ok := in.(*ssa.Call)
+				if !ok || c.Common().StaticCallee() != upd || len(c.Common().Args) == 0 {
+					continue
+				}
+				from := origin(c.Common().Args[0], 0)
+				if from == "" {
+					continue
+				}
+				n++
+				key := p.FuncName(f) + ":completes-error-of-other-template"
+				count[key]++
+				if count[key] > 1 {
+					key += "#" + itoa(int64(count[key]))
+				}
+				r.Bad(key, p.InstrPos(in), "the error returned by %s — which names the template that was loaded or executed there — is given the position of a token of the referring template: the report reads `in <other file> | Line/Col of this file`", from)
+			}
+		}
+	}
+	if n == 0 {
+		r.Trivial("none", "-", "no error of another template's loading or execution is completed with a token")
 	}
 }
